@@ -9,7 +9,7 @@ import time
 
 import z3
 
-sys.path.insert(0, "/verif/mirsmt")
+sys.path.insert(0, os.path.join(os.environ.get("VERIF_ROOT", "/verif"), "mirsmt"))
 sys.setrecursionlimit(200000)
 
 import mirdump  # noqa: E402
@@ -17,7 +17,7 @@ import mirparse  # noqa: E402
 import symex  # noqa: E402
 from core import Obligation, match_known  # noqa: E402
 
-VERIF = "/verif"
+VERIF = os.environ.get("VERIF_ROOT", "/verif")
 
 
 class KeyB:
